@@ -113,7 +113,7 @@ Section Spec.
     (fst acc ++ [snd a],
      if Nat.eqb (fst a) g then
        match snd a with
-       | OSet n => snd acc ++ [spec_named init (fst acc) n]
+       | OSet n | OAutoNew n => snd acc ++ [spec_named init (fst acc) n]
        | OReSet k n => set_nth k (spec_named init (fst acc) n) (snd acc)
        | OSetDec k d => set_nth k d (snd acc)
        | _ => snd acc
@@ -147,6 +147,7 @@ Section Spec.
     | ONames => match v with VNames l => listing_ok init ops l | _ => false end
     | OStyles => match v with VNames l => styles_listing_ok (map fst init ++ reg_names ops) l | _ => false end
     | OSet n => let d := spec_named init ops n in obs_eqb v (VSet (dec_is_empty d) (spec_render d))
+    | OAutoNew n => obs_eqb v (VRender (spec_render (spec_named init ops n)))   (* fails closed through auto too *)
     | ORender k =>
         match nth_error (tab_decs init (fst a) bef) k with
         | Some d => obs_eqb v (VRender (spec_render d))
@@ -219,6 +220,7 @@ Section Spec.
     | ONames => match e_obs e with VNames l => conc_listing_ok [] true init H l e | _ => false end
     | OStyles => match e_obs e with VNames l => conc_listing_ok four_names false init H l e | _ => false end
     | OSet n => read_ok init H n (fun d => obs_eqb (e_obs e) (VSet (dec_is_empty d) (spec_render d))) e
+    | OAutoNew n => read_ok init H n (fun d => obs_eqb (e_obs e) (VRender (spec_render d))) e
     | OReSet _ n => obs_eqb (e_obs e) VNone
                     || read_ok init H n (fun d => obs_eqb (e_obs e) (VSet (dec_is_empty d) (spec_render d))) e
     | ORender _ | OSetDec _ _ => true     (* local to a goroutine; judged on sequential histories *)
